@@ -494,7 +494,7 @@ def check_close(ctx, prog):
         if e.get('k') == 'bin' and e.get('op') == '=' and strip_lv(e['x']).get('f') == '_handle':
             return (st[0], (const_val(e['y']) or 0) < 0)
         return st
-    reached, _ = cfgm.dataflow(cfg, (False, False), step)
+    reached, _ = cfgm.dataflow(cfg, (False, False), cfgm.follow_helpers(prog, f, step))
     exits = reached.get(cfg.exit.id, set())
     ctx.check(any(c for c, _i in exits) and all(i for c, i in exits if c), 'C14.close', f['pq'], 'close:handle invalidated after closing', fwhere(f), 'every path that closes the descriptor leaves `_handle` negative',
               'Socket_::close() can return with the descriptor closed but the handle still set: the destructor (and explicit close + drop, as in SocketServer) closes the same number again, hitting a descriptor recycled for another connection')
